@@ -1,0 +1,17 @@
+//go:build verif
+// +build verif
+
+// Exposes the unexported target picker to the verification harness under /verif.
+// Compiled only with `-tags verif`; nothing here changes behaviour.
+
+package upstream
+
+import (
+	"github.com/vicanso/elton/middleware"
+	us "github.com/vicanso/upstream"
+)
+
+// VerifNewTargetPicker returns the target picker pike builds for an upstream.
+func VerifNewTargetPicker(uh *us.HTTP) middleware.ProxyTargetPicker {
+	return newTargetPicker(uh)
+}
